@@ -40,6 +40,12 @@ def file_text(fi, forms):
         label = 'f%da%d' % (fi, ai)
         if form == 'sym':
             lines.append(GOOD % (ph, label))
+        elif form == 'sym-desc-first':
+            lines.append('assert {desc = "%s", ok = %s > 0};' % (label, ph))
+        elif form == 'sym-extra-fields':
+            lines.append('assert {note = 1, desc = "%s", more = [1], ok = %s > 0, last = NULL};' % (label, ph))
+        elif form == 'sym-by-copy':
+            lines.append('let base%d = {desc = "%s"};\nassert base%d{ok = %s > 0};' % (ai, label, ai, ph))
         elif form == 'not-bool':
             lines.append(FORMS[form] % label)
         elif form == 'no-desc':
@@ -55,8 +61,16 @@ def cases(tier):
     cs = []
     single = [['sym'], ['sym', 'sym'], [], ['not-bool'], ['no-desc'], ['not-tuple'], ['build-error'], ['sym', 'build-error'], ['build-error', 'sym'],
               ['sym', 'not-bool', 'sym'], ['runtime-error'], ['sym', 'runtime-error'], ['runtime-error', 'sym'], ['sym', 'runtime-error', 'sym']]
+    # well-formed assertions whose tuple is not written as {ok = ..., desc = ...}: field order, extra fields, built by copy
+    single += [['sym-desc-first'], ['sym-extra-fields'], ['sym-by-copy'], ['sym', 'sym-desc-first', 'sym-extra-fields'], ['sym-by-copy', 'sym-desc-first']]
     for f in single:
         cs.append({'files': [f]})
+    # directory trees tested recursively: a failing file below the top directory must still make the run fail
+    for lay in (['t0_test.ucg', 'sub/t1_test.ucg'], ['sub/t0_test.ucg', 't1_test.ucg'], ['a/t0_test.ucg', 'b/deep/t1_test.ucg']):
+        for fs_ in ([['sym'], ['sym']], [['sym'], ['sym', 'runtime-error']], [['not-bool'], ['sym']]):
+            cs.append({'files': fs_, 'layout': lay})
+    cs.append({'files': [['sym-desc-first'], ['sym']]})
+    cs.append({'files': [['sym'], ['sym-extra-fields', 'sym-by-copy']]})
     pairs = [['sym'], ['sym', 'sym'], ['not-bool'], ['build-error'], [], ['sym', 'runtime-error'], ['runtime-error']]
     for a in pairs:
         for b_ in pairs:
@@ -80,15 +94,20 @@ def harness(ctx, case):
     ucgrun.install_parse_override(prog)
     files = case['files']
     names = ['t%d_test.ucg' % i for i in range(len(files))]
+    if case.get('layout'):
+        # the files live in a directory tree that is tested with `ucg test -r proj`
+        names = ['proj/' + rel for rel in case['layout']]
     ints = {}
     for fi, forms in enumerate(files):
         ctx.fs['/cwd/' + names[fi]] = file_text(fi, forms)
         for ai, form in enumerate(forms):
-            if form in ('sym', 'no-desc', 'not-tuple'):
+            if form.startswith('sym') or form in ('no-desc', 'not-tuple'):
                 ints[fi * 10 + ai + 1] = ctx.bv('c%d_%d' % (fi, ai), 64)
     ctx.parse_subst = {'ints': ints}
     env = ucgrun.make_env(ctx)
     matches = Agg('ArgMatches', None, (MapV('HashMap').insert('INPUT', VecV(names)), MapV('HashMap')))
+    if case.get('layout'):
+        matches = Agg('ArgMatches', None, (MapV('HashMap').insert('INPUT', VecV(['proj'])), MapV('HashMap').insert('recurse', True)))
     exited = None
     try:
         ctx.call('test_command', [matches, VecV([]), True, env])
@@ -107,7 +126,7 @@ def harness(ctx, case):
             if form in ('build-error', 'runtime-error') or malformed:
                 builds = False
                 break
-            if form == 'sym':
+            if form.startswith('sym'):
                 c = ints[fi * 10 + ai + 1] > 0
                 if ctx.valid(c):
                     own.append(('f%da%d' % (fi, ai), True))
@@ -134,7 +153,7 @@ def harness(ctx, case):
         for fi, forms in enumerate(files):
             progs[names[fi]] = SP.render_text(file_text(fi, forms), m, ctx, {k: v for k, v in ints.items() if k // 10 == fi})
         role = 'after-failing-file' if any(not e['pass'] for e in expected[:-1]) else 'first-or-after-passing'
-        out['violations'].append({'key': key + ':' + role, 'what': what + ' — files: %r' % (progs,), 'case': {'kind': 'cli-test', 'files': progs, 'order': names},
+        out['violations'].append({'key': key + ':' + role, 'what': what + ' — files: %r' % (progs,), 'case': {'kind': 'cli-test', 'files': progs, 'order': names, 'recurse': bool(case.get('layout'))},
                                   'expected': [{'name': e['name'], 'pass': e['pass']} for e in expected]})
 
     # per-file section of stdout
@@ -181,8 +200,10 @@ def judge_cli(fw, v):
     c = v['case']
     with tempfile.TemporaryDirectory(prefix='ucg-verif-c13-') as d:
         for n, t in c['files'].items():
+            os.makedirs(os.path.dirname(os.path.join(d, n)), exist_ok=True)
             open(os.path.join(d, n), 'w').write(t)
-        r = fw.native().cli(['test'] + c['order'], d)
+        args = ['test', '-r', 'proj'] if c.get('recurse') else ['test'] + c['order']
+        r = fw.native().cli(args, d)
     fw.replayed += 1
     v['native'] = r
     bad = False
@@ -200,7 +221,7 @@ def judge_cli(fw, v):
 def run(fw):
     cs = cases(fw.tier)
     fw.bounds.update({'files_per_invocation': '1..3', 'assertions_per_file': '0..3', 'assertion_forms': list(FORMS), 'outcomes': 'symbolic (i64 operand > 0)',
-                      'outside': 'directory recursion, stdout layout beyond verdict/summary/log lines, import of other files'})
+                      'directory_trees': '3 layouts tested with -r (files at depth 0..2)', 'outside': 'stdout layout beyond verdict/summary/log lines, import of other files'})
     fw.explore('test-command', harness, cs, fuel=200_000_000)
     for v in fw.violations:
         v['reproduced'] = judge_cli(fw, v)
